@@ -186,8 +186,8 @@ def run_check(tier):
         "bounds: prior size 0..%d, document size 0..%d (fixed-size targets: 0..n+1; sequences whose array scope reports no size - CSV "
         "natively, the others forced - up to %d, plain items beyond %d), estimate in {zero, exact, larger}" % (
             consts["MaxPrior"], consts["MaxDoc"], consts["MaxDocNoEstimate"], consts["MaxDoc"]),
-        "null / policy-skipped items are generated where the container semantics gives them a defined value (not for "
-        "vector<bool>, bitset, integer sets: the code reads an unset temporary there)",
+        "null / policy-skipped items are generated where the container semantics gives them a defined value (vector<bool>, bitset: "
+        "only where the shared bool temporary holds false; not for integer sets: the code inserts an unset temporary there)",
         "estimates other than the archive's own are realised by a forwarding array scope in the harness (GetEstimatedSize only)",
     ]
     build_thread = threading.Thread(target=build_all)
@@ -229,7 +229,7 @@ def run_check(tier):
         if i == shards // 2 and scens:
             s = scens[len(scens) // 2]
             chk.sample({"scenario": {k: s[k] for k in s if k not in ("exp", "expdev")}, "expected": s["exp"]})
-    if not grown["prior"] or not grown["doc"] or len({k[0] for k in reached}) < 41 or {k[2] for k in reached} != {"-", "clean", "onlyexist", "update"} \
+    if not grown["prior"] or not grown["doc"] or len({k[0] for k in reached}) < 44 or {k[2] for k in reached} != {"-", "clean", "onlyexist", "update"} \
             or {k[3] for k in reached} != {"zero", "exact", "larger"} or {k[4] for k in reached} != {"throw", "skip"}:
         raise MachineryError("MC_Containers: part of the scenario space was not reached: %s, %d types" % (grown, len({k[0] for k in reached})))
     chk.cov["classes_reached"] = len(reached)
